@@ -227,14 +227,17 @@ func rangeCompare(c *Ctx, p *Pkg, recv, name string) (string, string, error) {
 	return lo, hi, nil
 }
 
-// emitEncLevelTable reads FrameType.isAllowedAtEncLevel: an outer switch on the
-// encryption level whose clauses are `return <bool>` or an inner
-// `switch t { case …: return X; default: return Y }`.
+// emitEncLevelTable reads FrameType.isAllowedAtEncLevel: an outer switch on the encryption level.
+// Each clause body is evaluated symbolically for every frame type 0..255 and for one large
+// sentinel ("any other type") by a small interpreter of boolean Go expressions over the receiver
+// (||, &&, !, comparisons with constants, calls of single-return predicate methods on the receiver,
+// inner `switch t` with constant cases). No control flow is translated: the result is a table.
 func emitEncLevelTable(c *Ctx, w *LeanFile, p *Pkg) error {
 	fd := p.FuncDecl("FrameType", "isAllowedAtEncLevel")
-	if fd == nil {
+	if fd == nil || fd.Recv == nil || len(fd.Recv.List) != 1 || len(fd.Recv.List[0].Names) != 1 {
 		return fmt.Errorf("isAllowedAtEncLevel not found")
 	}
+	recv := fd.Recv.List[0].Names[0].Name
 	var sw *ast.SwitchStmt
 	for _, s := range fd.Body.List {
 		if x, ok := s.(*ast.SwitchStmt); ok {
@@ -244,17 +247,7 @@ func emitEncLevelTable(c *Ctx, w *LeanFile, p *Pkg) error {
 	if sw == nil {
 		return fmt.Errorf("isAllowedAtEncLevel: no switch")
 	}
-	boolOf := func(s ast.Stmt) (string, bool) {
-		rs, ok := s.(*ast.ReturnStmt)
-		if !ok || len(rs.Results) != 1 {
-			return "", false
-		}
-		id, ok := rs.Results[0].(*ast.Ident)
-		if !ok || (id.Name != "true" && id.Name != "false") {
-			return "", false
-		}
-		return id.Name, true
-	}
+	const sentinel = int64(1) << 40
 	var rows []string
 	defaultPanics := false
 	for _, cs := range sw.Body.List {
@@ -280,54 +273,186 @@ func emitEncLevelTable(c *Ctx, w *LeanFile, p *Pkg) error {
 			}
 			lvls = append(lvls, v)
 		}
-		if len(cc.Body) != 1 {
-			return fmt.Errorf("isAllowedAtEncLevel: unexpected clause body")
-		}
-		if b, ok := boolOf(cc.Body[0]); ok {
-			rows = append(rows, fmt.Sprintf("([%s], [], %s, %s)", strings.Join(lvls, ", "), b, b))
-			continue
-		}
-		inner, ok := cc.Body[0].(*ast.SwitchStmt)
-		if !ok {
-			return fmt.Errorf("isAllowedAtEncLevel: unexpected clause body")
+		other, err := evalStmts(p, recv, cc.Body, sentinel, 0)
+		if err != nil {
+			return fmt.Errorf("isAllowedAtEncLevel: %v", err)
 		}
 		var listed []string
-		listedVal, defVal := "", ""
-		for _, ics := range inner.Body.List {
-			icc := ics.(*ast.CaseClause)
-			if len(icc.Body) != 1 {
-				return fmt.Errorf("isAllowedAtEncLevel: unexpected inner clause")
+		for t := int64(0); t < 256; t++ {
+			v, err := evalStmts(p, recv, cc.Body, t, 0)
+			if err != nil {
+				return fmt.Errorf("isAllowedAtEncLevel: %v", err)
 			}
-			b, ok := boolOf(icc.Body[0])
-			if !ok {
-				return fmt.Errorf("isAllowedAtEncLevel: unexpected inner clause")
-			}
-			if icc.List == nil {
-				defVal = b
-				continue
-			}
-			if listedVal != "" && listedVal != b {
-				return fmt.Errorf("isAllowedAtEncLevel: mixed inner clauses")
-			}
-			listedVal = b
-			for _, e := range icc.List {
-				v, ok := constOf(p, e)
-				if !ok {
-					return fmt.Errorf("isAllowedAtEncLevel: non-constant frame type")
-				}
-				listed = append(listed, v)
+			if v != other {
+				listed = append(listed, fmt.Sprint(t))
 			}
 		}
-		if listedVal == "" || defVal == "" {
-			return fmt.Errorf("isAllowedAtEncLevel: inner switch incomplete")
-		}
-		rows = append(rows, fmt.Sprintf("([%s], [%s], %s, %s)", strings.Join(lvls, ", "), strings.Join(listed, ", "), listedVal, defVal))
+		rows = append(rows, fmt.Sprintf("([%s], [%s], %v, %v)", strings.Join(lvls, ", "), strings.Join(listed, ", "), !other, other))
 	}
-	w.P("/-- %s `isAllowedAtEncLevel`: rows (levels, listed frame types, result for listed, result otherwise);", c.pos(fd.Pos()))
+	w.P("/-- %s `isAllowedAtEncLevel`: rows (levels, listed frame types, result for listed, result otherwise),", c.pos(fd.Pos()))
+	w.P("    obtained by evaluating each clause for every type 0..255 and for one other value;")
 	w.P("    a level in no row %s -/", map[bool]string{true: "panics", false: "falls through"}[defaultPanics])
 	w.P("def encLevelTable : List (List Int × List Int × Bool × Bool) := [%s]", strings.Join(rows, ", "))
 	w.P("def encLevelDefaultPanics : Bool := %v", defaultPanics)
 	return nil
+}
+
+// evalStmts evaluates a statement list that returns a bool, with the receiver bound to t.
+func evalStmts(p *Pkg, recv string, body []ast.Stmt, t int64, depth int) (bool, error) {
+	if depth > 8 {
+		return false, fmt.Errorf("predicate nesting too deep")
+	}
+	for _, s := range body {
+		switch x := s.(type) {
+		case *ast.ReturnStmt:
+			if len(x.Results) != 1 {
+				return false, fmt.Errorf("unexpected return")
+			}
+			return evalBool(p, recv, x.Results[0], t, depth)
+		case *ast.SwitchStmt:
+			tag, ok := x.Tag.(*ast.Ident)
+			if !ok || tag.Name != recv || x.Init != nil {
+				return false, fmt.Errorf("unsupported switch")
+			}
+			var def *ast.CaseClause
+			matched := false
+			for _, ics := range x.Body.List {
+				icc := ics.(*ast.CaseClause)
+				if icc.List == nil {
+					def = icc
+					continue
+				}
+				for _, e := range icc.List {
+					v, ok := constOf(p, e)
+					if !ok {
+						return false, fmt.Errorf("non-constant case")
+					}
+					if v == fmt.Sprint(t) {
+						matched = true
+					}
+				}
+				if matched {
+					return evalStmts(p, recv, icc.Body, t, depth)
+				}
+			}
+			if def != nil {
+				return evalStmts(p, recv, def.Body, t, depth)
+			}
+			// falls out of the switch: continue with the next statement
+		case *ast.IfStmt:
+			if x.Init != nil {
+				return false, fmt.Errorf("unsupported if")
+			}
+			c, err := evalBool(p, recv, x.Cond, t, depth)
+			if err != nil {
+				return false, err
+			}
+			if c {
+				return evalStmts(p, recv, x.Body.List, t, depth)
+			} else if x.Else != nil {
+				if blk, ok := x.Else.(*ast.BlockStmt); ok {
+					return evalStmts(p, recv, blk.List, t, depth)
+				}
+				return evalStmts(p, recv, []ast.Stmt{x.Else}, t, depth)
+			}
+		default:
+			return false, fmt.Errorf("unsupported statement %T", s)
+		}
+	}
+	return false, fmt.Errorf("no return reached")
+}
+
+func evalInt(p *Pkg, recv string, e ast.Expr, t int64) (int64, error) {
+	switch x := e.(type) {
+	case *ast.ParenExpr:
+		return evalInt(p, recv, x.X, t)
+	case *ast.Ident:
+		if x.Name == recv {
+			return t, nil
+		}
+	case *ast.CallExpr: // conversions such as uint64(t)
+		if len(x.Args) == 1 {
+			if tv, ok := p.Info.Types[x.Fun]; ok && tv.IsType() {
+				return evalInt(p, recv, x.Args[0], t)
+			}
+		}
+	}
+	if v, ok := constOf(p, e); ok {
+		var n int64
+		if _, err := fmt.Sscan(v, &n); err == nil {
+			return n, nil
+		}
+	}
+	return 0, fmt.Errorf("unsupported integer expression")
+}
+
+func evalBool(p *Pkg, recv string, e ast.Expr, t int64, depth int) (bool, error) {
+	switch x := e.(type) {
+	case *ast.ParenExpr:
+		return evalBool(p, recv, x.X, t, depth)
+	case *ast.Ident:
+		if x.Name == "true" {
+			return true, nil
+		}
+		if x.Name == "false" {
+			return false, nil
+		}
+	case *ast.UnaryExpr:
+		if x.Op == token.NOT {
+			v, err := evalBool(p, recv, x.X, t, depth)
+			return !v, err
+		}
+	case *ast.BinaryExpr:
+		switch x.Op {
+		case token.LOR, token.LAND:
+			l, err := evalBool(p, recv, x.X, t, depth)
+			if err != nil {
+				return false, err
+			}
+			r, err := evalBool(p, recv, x.Y, t, depth)
+			if err != nil {
+				return false, err
+			}
+			if x.Op == token.LOR {
+				return l || r, nil
+			}
+			return l && r, nil
+		case token.EQL, token.NEQ, token.LSS, token.LEQ, token.GTR, token.GEQ:
+			l, err := evalInt(p, recv, x.X, t)
+			if err != nil {
+				return false, err
+			}
+			r, err := evalInt(p, recv, x.Y, t)
+			if err != nil {
+				return false, err
+			}
+			switch x.Op {
+			case token.EQL:
+				return l == r, nil
+			case token.NEQ:
+				return l != r, nil
+			case token.LSS:
+				return l < r, nil
+			case token.LEQ:
+				return l <= r, nil
+			case token.GTR:
+				return l > r, nil
+			default:
+				return l >= r, nil
+			}
+		}
+	case *ast.CallExpr: // t.Predicate()
+		if sel, ok := x.Fun.(*ast.SelectorExpr); ok && len(x.Args) == 0 {
+			if id, ok := sel.X.(*ast.Ident); ok && id.Name == recv {
+				fd := p.FuncDecl("FrameType", sel.Sel.Name)
+				if fd == nil || fd.Body == nil || fd.Recv == nil || len(fd.Recv.List[0].Names) != 1 {
+					return false, fmt.Errorf("predicate %s not found", sel.Sel.Name)
+				}
+				return evalStmts(p, fd.Recv.List[0].Names[0].Name, fd.Body.List, t, depth+1)
+			}
+		}
+	}
+	return false, fmt.Errorf("unsupported boolean expression")
 }
 
 // caseIfLiteral finds, in method recv.name, the switch clause listing constant
